@@ -40,6 +40,11 @@ type Case struct {
 	// it is resumed (through an intermediate process that does not run the async searcher);
 	// they match the query's fields but must not show up in the result
 	Late []model.Doc `json:"late,omitempty"`
+	// Retire: between the crash and the resumption size-based retention removes the oldest
+	// fraction (an intermediate process with the size limit just below what is stored).
+	// The resumed search has to end; its answer holds every matching document of the
+	// surviving fractions and nothing that was never stored.
+	Retire bool `json:"retire,omitempty"`
 }
 
 func genCase(t *rapid.T) Case {
@@ -81,6 +86,9 @@ func genCase(t *rapid.T) Case {
 			late[i].ID.RID |= 1 << 61 // distinct from every earlier id
 		}
 		c.Late = late
+	}
+	if c.N > 0 && len(c.Late) == 0 && c.K > 1 {
+		c.Retire = rapid.IntRange(0, 3).Draw(t, "retire") == 3
 	}
 	return c
 }
@@ -179,7 +187,7 @@ func runCase(c Case) (evid.Result, error) {
 		return res, evid.Failf("no-start", "%v", err)
 	}
 	defer func() { p.Kill() }()
-	nfr := 0
+	nfr, firstFrac := 0, -1
 	dupApplied := false
 	for f := 0; f < c.K; f++ {
 		var part []model.Doc
@@ -202,6 +210,9 @@ func runCase(c Case) (evid.Result, error) {
 		}
 		if len(part) == 0 {
 			continue
+		}
+		if nfr == 0 {
+			firstFrac = f
 		}
 		nfr++
 		if r, err := p.Do(harness.PCmd{Op: "bulk", Docs: part, Wait: true}); err != nil || !r.OK {
@@ -235,6 +246,7 @@ func runCase(c Case) (evid.Result, error) {
 		}
 	}
 	crashes := 0
+	retired := false
 	expected := c.Corpus // the documents of the fractions that existed when the search was (re)started
 	lateIngested := false
 	var final *harness.PResp
@@ -258,6 +270,39 @@ func runCase(c Case) (evid.Result, error) {
 		}
 		crashes++
 		res.Labels = append(res.Labels, fmt.Sprintf("crash@%s#%d", p.Crash.Crashed, min(c.N, 9)))
+		if crashes == 1 && c.Retire && nfr >= 2 && !retired {
+			q, err := harness.OpenProcAsync(dir, opts, c.Fsync, false)
+			if err != nil {
+				return res, evid.Failf("no-start", "intermediate start: %v", err)
+			}
+			fr, err := q.Do(harness.PCmd{Op: "fracs"})
+			if err != nil {
+				return res, evid.Failf("died-idle", "intermediate: exit %d %s", q.Exit, q.StderrTail())
+			}
+			var total uint64
+			for _, f := range fr.Fracs {
+				total += f.Size
+			}
+			if err := q.StopGraceful(); err != nil {
+				return res, evid.Failf("stop-failed", "intermediate: %v", err)
+			}
+			if len(fr.Fracs) >= 2 && fr.Fracs[0].Sealed && fr.Fracs[0].Size > 0 && total > 2 {
+				lower := opts
+				lower.TotalSize = total - 1 // the first maintenance pass removes exactly the oldest fraction
+				q, err := harness.OpenProcAsync(dir, lower, c.Fsync, false)
+				if err != nil {
+					return res, evid.Failf("no-start", "intermediate start with the lowered limit: %v", err)
+				}
+				if _, err := q.Do(harness.PCmd{Op: "maintain"}); err != nil {
+					return res, evid.Failf("died-in-maintenance", "intermediate: exit %d %s", q.Exit, q.StderrTail())
+				}
+				if err := q.StopGraceful(); err != nil {
+					return res, evid.Failf("stop-failed", "intermediate: %v", err)
+				}
+				retired = true
+				res.Labels = append(res.Labels, "oldest-fraction-retired-before-resume")
+			}
+		}
 		if crashes == 1 && len(c.Late) > 0 {
 			// ingest into a fresh fraction while no async searcher is running
 			q, err := harness.OpenProcAsync(dir, opts, c.Fsync, false)
@@ -307,6 +352,42 @@ func runCase(c Case) (evid.Result, error) {
 	aggRef := sync
 	if len(expected) != len(c.Corpus) {
 		aggRef = nil
+	}
+	if retired {
+		// the oldest fraction is gone; whether its partial result had been persisted before the
+		// crash is the schedule's: every id must be a stored matching document, and every
+		// matching document of the surviving fractions must be there
+		var surviving model.Corpus
+		for i, d := range c.Corpus {
+			survives := c.FracOf[i] != firstFrac
+			for _, dp := range c.Dups {
+				if dp[0] == i && dp[1] != firstFrac {
+					survives = true
+				}
+			}
+			if survives {
+				surviving = append(surviving, d)
+			}
+		}
+		all := map[model.ID]bool{}
+		for _, id := range model.Search(c.Corpus, &c.R).IDs {
+			all[id] = true
+		}
+		got := map[model.ID]bool{}
+		for _, id := range final.IDs {
+			if !all[id] {
+				return res, evid.Failf("ids-differ", "[async, oldest fraction retired before the resumption] id %v is not a stored matching document", id)
+			}
+			got[id] = true
+		}
+		for _, id := range model.Search(surviving, &c.R).IDs {
+			if !got[id] {
+				return res, evid.Failf("ids-differ", "[async, oldest fraction retired before the resumption] matching document %v of a surviving fraction is missing", id)
+			}
+		}
+		res.Evals = 2
+		res.NonTrivial = true
+		return res, nil
 	}
 	if err := compare("async", final, expected, &c, dupApplied, aggRef); err != nil {
 		return res, err
